@@ -20,9 +20,22 @@ Streams:
      phase shifter, lossy sub-circuit appended in place; circuits of the same modes with 0 / 1 / 2 loss modes
      assigned): U_full changes its size while modes, heralds and input stay; a rule added in place to the shared
      PostSelection object is a step as well;
+     DEFAULT COMPONENTS ARE PER OBJECT: holders are also created WITHOUT a source / detector / backend / post-selection
+     (argument left out, None by keyword, None by position) or put back on a default (`holder.source = None` ...); one
+     holder tunes its own default in place through its accessor, others exist before and are created afterwards (a
+     directed corpus for every component and call form, `gen_defaults` worlds, and mixed into the shared histories).
+     The harness keeps its OWN record of what every holder was given (passed / assigned / changed through which holder
+     or shared component); the fresh object of every comparison is built from that record with explicit new
+     components (never from attributes read back from the object under test), and after every step the public
+     attributes of EVERY holder are cross-checked against the record: a difference is "settings of an object changed
+     without being assigned".  Every history first undoes, through public accessors on new default objects, what
+     earlier histories of the process may have done to shared defaults, so that a shrunk history replays on its own;
   2. one long-lived Sampler or QuickSampler under a random history (as before, plus in-place extension by a
      heralded gate, in-place edits that add loss elements, a rule added in place to the QuickSampler's
-     PostSelection object; directed: an observation, a change of the loss count, an observation);
+     PostSelection object; directed: an observation, a change of the loss count, an observation); the long-lived object
+     may be created on default components (["ctor", form]), put back on a default (source_none / detector_none /
+     backend_none), and OTHER objects on default components are created and tuned in place in between (["decoy", ...]);
+     the same cross-check of reported against recorded settings at every observation;
   3. Analyzer probes and histories.
 
 Correspondence layer (harness/c11corr.py, driver op "cache"): in streams 1 and 2 every long-lived Sampler /
@@ -65,7 +78,9 @@ TRUSTED = [
     "numpy / stdlib PRNG determinism for equal seeds",
 ]
 ASSUMPTIONS = ["histories of 4-14 steps on circuits with <= 4 modes (<= 7 after in-place extension), <= 3 user photons",
-               "shared-component histories: <= 5 holders, two Backend / Source / Detector objects each"]
+               "shared-component histories: <= 5 holders, two Backend / Source / Detector objects each",
+               "default components: <= 5 holders (<= 6 in the directed corpus) created on defaults per world, every call form; the "
+               "default post-selection of QuickSampler / Analyzer is tuned in place only if it accepts rules (the library's does not)"]
 
 
 def circuits(rng):
@@ -168,7 +183,25 @@ def gen_history(ctx: Ctx, rng, kind: str) -> list:
     names = ["idleherald0", "idleherald1", "plain", "lossy", "heralded_sub", "swap", "herald_out0", "herald_out2",
              "herald_in0", "lossy1"]
     inputs = [[1, 0, 0], [1, 1, 0], [0, 1, 1], [2, 0, 0], [0, 0, 0], [1, 1, 1], [1, 0, 1]]
-    if rng.random() < 0.35:
+    if rng.random() < 0.3:
+        # the long-lived object runs on DEFAULT components (arguments left out / None / None by position)
+        steps.append(["ctor", rng.choice(FORMS)])
+        ctx.count(f"defaults:{kind}:long_lived_object_on_default_components")
+    if rng.random() < 0.14:
+        # directed: the long-lived object and ANOTHER object are both created on default components; the other one's
+        # defaults are tuned in place between two observations of the long-lived object (which must not follow);
+        # then the long-lived object's own defaults are tuned in place / reset by assigning None
+        if not steps:
+            steps.append(["ctor", rng.choice(FORMS)])
+        sd = rng.randrange(1000)
+        obs = [["read"], ["sample", sd], ["sample_N_outputs", 20, sd]] + ([["sample_N_inputs", 20, sd]] if kind == "sampler" else [])
+        steps += [["input", rng.choice([[1, 1, 0], [0, 1, 1], [1, 0, 1]])]] + ([rng.choice(obs)] if rng.random() < 0.6 else [])
+        steps += [_gen_decoy(rng, kind, steps), rng.choice(obs)]
+        if kind == "sampler":
+            steps += [rng.choice([["source", rng.choice(SH_SRC[1:]), False], ["source_one", rng.randrange(3), 0.8]]), rng.choice(obs),
+                      _gen_decoy(rng, kind, steps), rng.choice([["source_none"], ["detector_none"], ["backend_none"], ["read"]]), rng.choice(obs)]
+        ctx.count("directed:other_object_on_default_components_tuned_in_place")
+    elif rng.random() < 0.35:
         # directed: two circuits with element-wise equal U_full but different herald photons, with an
         # observation in between — only a configuration snapshot that includes the heralds tells them apart
         a, b = rng.choice(SAME_UFULL)
@@ -211,10 +244,14 @@ def gen_history(ctx: Ctx, rng, kind: str) -> list:
             common = [["param_same"], ["circuit_same"], ["circuit_copy"], ["input_same"]]
             if kind == "sampler":
                 steps.append(rng.choice(common + [
+                    ["source_none"], ["detector_none"], ["backend_none"],
                     ["source_same"], ["backend_same"], ["detector", rng.choice(SH_DET)],
                     ["source_one", rng.randrange(3), rng.choice([1, 0.9, 0.8])], ["source_thr", rng.choice([0, 1e-3, 0.2])]]))
             else:
                 steps.append(rng.choice(common + [["ps_same_object"], ["ps_equal_new"], ["pnr_same"]]))
+            continue
+        if rng.random() < 0.05:
+            steps.append(_gen_decoy(rng, kind, steps))
             continue
         r = rng.random()
         if r < 0.22:
@@ -250,6 +287,21 @@ def gen_history(ctx: Ctx, rng, kind: str) -> list:
     return steps
 
 
+def _gen_decoy(rng, kind: str, steps: list = ()) -> list:
+    """["decoy", form, what, value]: another object of this kind on default components, tuned in place; mostly created
+    in the same call form as the long-lived object (a default shared per call form shows only between such objects)"""
+    own = next((s[1] for s in steps if s[0] == "ctor"), None)
+    if own is not None and rng.random() < 0.65:
+        d = _gen_decoy(rng, kind)
+        return [d[0], own, *d[2:]]
+    if kind == "sampler":
+        what = rng.choice(["source", "source", "source", "detector", "detector", "backend", "source_thr"])
+        v = (rng.choice(SH_SRC[1:]) if what == "source" else rng.choice(SH_DET[1:]) if what == "detector" else "slos" if what == "backend"
+             else rng.choice([0.2, 0.9]))
+        return ["decoy", rng.choice(FORMS), what, v]
+    return ["decoy", rng.choice(FORMS), "ps_add", rng.choice([[[0], [1]], [[1], [0, 1]], [[2], [0]]])]
+
+
 def mk_ps(r):
     if r is None:
         return None
@@ -282,8 +334,127 @@ def same_obs(a, b) -> bool:
     return x == y
 
 
+# ------------------------------------------------------------------------------------------------
+# DEFAULT COMPONENTS ARE PER OBJECT.  An object that is created without a source / detector / backend / post-selection
+# (argument left out, None by keyword, None by position, or `obj.<component> = None` later) runs on components that the
+# library makes for it.  These belong to that object alone: tuning them in place through the accessor of ONE object
+# (a.source.brightness = 0.5) must not show on any other object, existing or created later.  The harness therefore
+# keeps its OWN record of what every object was given (what was passed / assigned / changed through which holder) and
+# builds the fresh object of the comparison from that record with EXPLICIT new components; what an object reports
+# through its public attributes is cross-checked against the record (never used to build the fresh object).
+
+FORMS = ("omit", "none", "pos")
+FORM_TEXT = {"kw": "with every component given explicitly", "omit": "with the optional arguments left out",
+             "none": "with the optional arguments given as None", "pos": "with the optional arguments given as None by position"}
+
+
+SH_FORM_TEXT = {**FORM_TEXT, "kw": "with the components it was not given passed as None"}
+
+
+def _always(state) -> bool:
+    return True
+
+
+def _explicit_ps(ps):
+    """the post-selection handed to a fresh object: never the library's default object"""
+    return _always if ps is None else ps
+
+
+def _default_object(kind: str, c, inp: list, form: str):
+    """an object of `kind` on default components only"""
+    s = lw.State(inp)
+    if kind == "sampler":
+        return (emulator.Sampler(c, s) if form == "omit" else emulator.Sampler(c, s, None, None, None) if form == "pos" else
+                emulator.Sampler(c, s, source=None, detector=None, backend=None))
+    if kind == "quick":
+        return (emulator.QuickSampler(c, s) if form == "omit" else emulator.QuickSampler(c, s, True, None) if form == "pos" else
+                emulator.QuickSampler(c, s, post_select=None))
+    a = emulator.Analyzer(c)
+    if form != "omit":
+        a.post_selection = None
+    return a
+
+
+def _pristine_start() -> None:
+    """every history is an experiment of its own (and every shrunk history replays in a new process): whatever an earlier
+    history of this process did to default components is undone through the same public accessors, on newly created
+    default objects of every call form.  On a library whose defaults are per object this touches throw-away objects only."""
+    c = lw.Circuit(2)
+    for form in FORMS:
+        o = _default_object("sampler", c, [1, 0], form)
+        _set_source(o.source, [1, 1, 1])
+        o.source.probability_threshold = 0
+        _set_detector(o.detector, [1, 0, True])
+        o.backend.backend = "permanent"
+
+
+def _tune_in_place(ctx: Ctx, obj, kind: str, what: str, v) -> bool:
+    """change a component of `obj` IN PLACE through the accessor (never replaces the component)"""
+    if kind == "sampler":
+        if what == "source":
+            _set_source(obj.source, v)
+        elif what == "source_thr":
+            obj.source.probability_threshold = v
+        elif what == "detector":
+            _set_detector(obj.detector, v)
+        elif what == "backend":
+            obj.backend.backend = v
+        else:
+            return False
+        return True
+    if what != "ps_add":
+        return False
+    ps = obj.post_select if kind == "quick" else obj.post_selection
+    if not hasattr(ps, "add"):
+        # (the library's default post-selection has no rules to add: nothing to tune in place)
+        ctx.count("defaults:default_post_selection_cannot_be_tuned")
+        return False
+    ps.add(tuple(v[0]), tuple(v[1]))
+    return True
+
+
+def _reported(kind: str, obj) -> dict:
+    """what the object reports through its public attributes"""
+    if kind == "sampler":
+        s, d = obj.source, obj.detector
+        return {"source.brightness": s.brightness, "source.purity": s.purity, "source.indistinguishability": s.indistinguishability,
+                "source.probability_threshold": s.probability_threshold, "detector.efficiency": d.efficiency,
+                "detector.p_dark": d.p_dark, "detector.photon_counting": d.photon_counting, "backend.backend": obj.backend.backend,
+                "input_state": list(obj.input_state.s)}
+    if kind == "quick":
+        return {"photon_counting": obj.photon_counting, "post_select.rules": sorted(Abstractor.rules_of(obj.post_select)),
+                "input_state": list(obj.input_state.s)}
+    return {"post_selection.rules": sorted(Abstractor.rules_of(obj.post_selection))}
+
+
+def _intended(kind: str, *, src=None, thr=0, det=None, backend=None, pnr=None, rules=(), inp=None) -> dict:
+    if kind == "sampler":
+        return {"source.brightness": src[0], "source.purity": src[1], "source.indistinguishability": src[2],
+                "source.probability_threshold": thr, "detector.efficiency": det[0], "detector.p_dark": det[1],
+                "detector.photon_counting": det[2], "backend.backend": backend, "input_state": list(inp)}
+    rl = sorted([[int(m) for m in r[0]], [int(n) for n in r[1]]] for r in rules)
+    if kind == "quick":
+        return {"photon_counting": pnr, "post_select.rules": rl, "input_state": list(inp)}
+    return {"post_selection.rules": rl}
+
+
+def _intended_single(kind: str, cur: dict) -> dict:
+    rules = [] if cur["ps"] is None else [cur["ps"], *cur["ps_extra"]]
+    return _intended(kind, src=cur["source"], thr=cur["thr"], det=cur["det"], backend=cur["backend"], pnr=cur["pnr"],
+                     rules=rules, inp=cur["input"])
+
+
+def _reported_vs_intended(kind: str, obj, want: dict):
+    """first public attribute whose value is not the one the harness recorded for this object: (name, reported, intended)"""
+    got = _reported(kind, obj)
+    for name, w in want.items():
+        if got[name] != w:
+            return (name, got[name], w)
+    return None
+
+
 OBS = ("read", "sample", "sample_N_outputs", "sample_N_inputs")
-NEW_OBJECT_SAME_VALUE = ("circuit_copy", "input_same", "source_same", "backend_same", "input", "source", "backend", "circuit")
+NEW_OBJECT_SAME_VALUE =("circuit_copy", "input_same", "source_same", "backend_same", "input", "source", "backend", "circuit")
 
 
 def run_history(ctx: Ctx, kind: str, steps: list, count: bool = False, snap: str | None = None,
@@ -306,6 +477,7 @@ def run_history_tr(ctx: Ctx, kind: str, steps: list, count: bool = False, snap: 
 
 def _run_history(ctx: Ctx, kind: str, steps: list, tr: Tracker, count: bool) -> list[str]:
     probs: list[str] = []
+    _pristine_start()
     fam, p = circuits(None)
     cur = {"circuit": "plain", "input": [1, 0, 0], "source": [1, 1, 1], "backend": "permanent", "ps": None, "pnr": True,
            "ps_extra": [], "thr": 0, "det": [1, 0, True]}
@@ -323,18 +495,44 @@ def _run_history(ctx: Ctx, kind: str, steps: list, tr: Tracker, count: bool) -> 
             return emulator.Sampler(c, lw.State(cur["input"]),
                                     source=emulator.Source(brightness=b, purity=pu, indistinguishability=ind,
                                                            probability_threshold=cur["thr"]),
-                                    detector=_mk_detector(cur["det"]), backend=cur["backend"])
-        return emulator.QuickSampler(c, lw.State(cur["input"]), photon_counting=cur["pnr"], post_select=fresh_ps())
+                                    detector=_mk_detector(cur["det"]), backend=emulator.Backend(cur["backend"]))
+        return emulator.QuickSampler(c, lw.State(cur["input"]), photon_counting=cur["pnr"], post_select=_explicit_ps(fresh_ps()))
 
+    # how the long-lived object is created: every component given explicitly ("kw", as a fresh object is), or with the
+    # optional arguments left out ("omit"), given as None by keyword ("none") or by position ("pos"): the object then
+    # runs on the DEFAULT components that the library makes for it
+    form = next((s[1] for s in steps if s[0] == "ctor"), "kw")
+    decoys: list = []
     try:
-        obj = fresh()
+        obj = fresh() if form == "kw" else _default_object(kind, fam[cur["circuit"]], cur["input"], form)
     except Exception:  # noqa: BLE001
         return probs
     prev = tr.snapshot(obj)
     for k, st in enumerate(steps):
         op = st[0]
         try:
-            if op == "circuit":
+            if op == "ctor":
+                continue
+            if op == "decoy":
+                # ANOTHER object of the same kind is created with default components (before / after this step other
+                # such objects exist) and its own defaults are tuned in place through its accessors; the record `cur`
+                # of the long-lived object does not change
+                d = _default_object(kind, fam["plain"], [1, 0, 0], st[1])
+                decoys.append(d)
+                _tune_in_place(ctx, d, kind, st[2], st[3])
+            elif op == "source_none":
+                if kind == "sampler":
+                    obj.source = None
+                    cur["source"], cur["thr"] = [1, 1, 1], 0
+            elif op == "detector_none":
+                if kind == "sampler":
+                    obj.detector = None
+                    cur["det"] = [1, 0, True]
+            elif op == "backend_none":
+                if kind == "sampler":
+                    obj.backend = None
+                    cur["backend"] = "permanent"
+            elif op == "circuit":
                 obj.circuit = fam[st[1]]
                 cur["circuit"] = st[1]
             elif op == "circuit_same":
@@ -430,6 +628,11 @@ def _run_history(ctx: Ctx, kind: str, steps: list, tr: Tracker, count: bool) -> 
                 else:
                     def act(o):
                         return sorted((tuple(s.s), n) for s, n in o.sample_N_inputs(st[1], seed=st[2]).items())
+                bad = _reported_vs_intended(kind, obj, _intended_single(kind, cur))
+                note = ""
+                if bad:
+                    note = (f"settings of an object changed without being assigned: the long-lived {kind} (created "
+                            f"{FORM_TEXT[form]}) reports {bad[0]} = {bad[1]!r}, the last value given to THIS object is {bad[2]!r}")
                 cfg = tr.snapshot(obj)
                 with SEAMS.window() as w:
                     a = observe(lambda: act(obj))
@@ -441,13 +644,19 @@ def _run_history(ctx: Ctx, kind: str, steps: list, tr: Tracker, count: bool) -> 
                     # circuit): the long-lived object must refuse too (its exception comes from the read)
                     if a[0] == "raise":
                         ctx.count(f"{kind}:both_refuse")
+                        if note:
+                            probs.append(f"oracle: step #{k} {st}: {note} (what was assigned to it: {cur})")
+                            return probs
                         continue
                     fo = ("raise", exc_class(e))
                 else:
                     fo = observe(lambda: act(fobj))
                 if not same_obs(a, fo):
                     probs.append(f"oracle: step #{k} {st}: long-lived {kind} gives {str(a)[:140]} but a fresh object with the "
-                                 f"same settings ({cur}) gives {str(fo)[:140]}")
+                                 f"same settings ({cur}) gives {str(fo)[:140]}" + (f"; {note}" if note else ""))
+                    return probs
+                if note:
+                    probs.append(f"oracle: step #{k} {st}: {note} (what was assigned to it: {cur})")
                     return probs
                 continue
             # a reconfiguration step: which fields of the snapshot did it change?
@@ -513,6 +722,29 @@ def field_corpus(kind: str) -> list:
     # the input no longer fits, the read raises and stores nothing; the old circuit comes back: nothing to recompute
     out.append(("n_modes(read raises)", [["input", [1, 1, 0]], ["circuit", "lossy"], rd, ["circuit", "lossy_dil"], rd, rd,
                                          ["circuit", "lossy"], rd, ["circuit", "lossy_dil"], ["input", [1, 1, 0, 0, 0]], rd, rd]))
+    return out
+
+
+def defaults_corpus(kind: str) -> list:
+    """directed histories: the long-lived object is created on DEFAULT components (every call form); another object on
+    default components is created and tuned in place between two observations; then the long-lived object's own default
+    is tuned in place, another default object is tuned again, and the long-lived object is put back on a default (None)"""
+    rd = ["read"]
+    out = []
+    if kind == "sampler":
+        tunes = [("source", [0.8, 1, 1], [1, 1, 0.7]), ("source", [1, 0.9, 1], [0.9, 0.95, 0.8]), ("detector", [0.9, 0, False], [1, 0.05, True]),
+                 ("backend", "slos", "slos"), ("source_thr", 0.9, 0.2)]
+        for i, (what, v1, v2) in enumerate(tunes):
+            for j, form in enumerate(FORMS):
+                f2 = FORMS[(i + j + 1) % 3]
+                back = {"source": ["source_none"], "source_thr": ["source_none"], "detector": ["detector_none"], "backend": ["backend_none"]}[what]
+                out.append((f"defaults:{what}:{form}", [["ctor", form], ["input", [1, 1, 0]], rd, ["decoy", form, what, v1], rd,
+                                                        ["sample_N_inputs", 20, 3], ["source_one", 0, 0.8], rd, ["decoy", f2, what, v2],
+                                                        ["sample", 5], rd, back, ["decoy", form, what, v2], rd, ["sample_N_outputs", 20, 4]]))
+    else:
+        for form in FORMS:
+            out.append((f"defaults:post_select:{form}", [["ctor", form], ["input", [1, 1, 0]], rd, ["decoy", form, "ps_add", [[0], [1]]], rd,
+                                                         ["pnr", False], ["decoy", "omit", "ps_add", [[2], [0]]], rd, ["post_select", None], rd]))
     return out
 
 
@@ -607,11 +839,19 @@ def analyzer_histories(ctx: Ctx, rng) -> None:
 # observation of each object is compared with a fresh object that is given fresh components with the same values.
 #
 #   ["new", name, kind, circuit, base_input, cfg]   kind: sampler | quick | analyzer
-#         cfg (sampler): {"b": "B0"|"B1"|"str:permanent"|"str:slos", "s": "SRC0"|"SRC1"|"own", "d": "D0"|"D1"|"own"}
+#         cfg (sampler): {"b": "B0"|"B1"|"str:permanent"|"str:slos"|"own", "s": "SRC0"|"SRC1"|"own", "d": "D0"|"D1"|"own"}
 #         cfg (quick): {"pnr": bool, "ps": rules|None}     cfg (analyzer): {"ps": rules|None}
+#         "own" / None = the component is NOT given: the holder runs on a default component of its own.  cfg["form"] says
+#         how "not given" is written: "kw" (default) None by keyword, "omit" the argument is left out, "pos" everything by position
 #   ["set", name, attr, value]        attr: circuit | input | backend | source | detector | post_select | pnr
+#                                     (source / detector / backend / post_select = None: back to a default of its own)
 #   ["mutate", ref, value]            in place on the shared component (Backend.backend, Source / Detector attributes)
-#   ["mutate_own", name, what, value] the same through one holder: sampler.source.brightness = ... etc.
+#   ["mutate_own", name, what, value] the same through one holder: sampler.source.brightness = ... etc. (a holder that was
+#                                     given no component tunes ITS OWN default: nobody else may follow); what = "ps_add":
+#                                     a rule added to a QuickSampler's / Analyzer's own default post-selection, if it takes rules
+#   The harness records what every holder was given (`cur`, `vals`, `psrules`): the fresh object of every comparison is
+#   built from this record with explicit new components, and after every step the public attributes of EVERY holder are
+#   cross-checked against it ("settings of an object changed without being assigned").
 #   ["mutate_ps", rules, extra]       a further rule added IN PLACE to the shared PostSelection object made from `rules`
 #   ["param", v]  ["mutate_circuit", circuit, what, mode]     the shared Parameter / circuit objects
 #   ["obs", name, what, ...]          read | sample seed | sample_N_outputs N seed rules | sample_N_inputs N seed rules
@@ -667,6 +907,7 @@ def run_shared(ctx: Ctx, steps: list, count: bool = False, corr: bool = True) ->
 
 
 def _run_shared(ctx: Ctx, steps: list, tk: dict) -> list[str]:
+    _pristine_start()
     fam, p = circuits(None)
     vals = json.loads(json.dumps(SH_INIT))
     comp = {"B0": emulator.Backend(vals["B0"]), "B1": emulator.Backend(vals["B1"]), "SRC0": _mk_source(vals["SRC0"]),
@@ -708,13 +949,44 @@ def _run_shared(ctx: Ctx, steps: list, tk: dict) -> list[str]:
         c = fam[cur["circuit"]]
         if o["kind"] == "sampler":
             return emulator.Sampler(c, lw.State(cur["input"]), source=_mk_source(eff(o, "s")),
-                                    detector=_mk_detector(eff(o, "d")), backend=eff(o, "b"))
+                                    detector=_mk_detector(eff(o, "d")), backend=emulator.Backend(eff(o, "b")))
         if o["kind"] == "quick":
-            return emulator.QuickSampler(c, lw.State(cur["input"]), photon_counting=cur["pnr"], post_select=fresh_ps(cur["ps"]))
+            return emulator.QuickSampler(c, lw.State(cur["input"]), photon_counting=cur["pnr"],
+                                         post_select=_explicit_ps(own_ps(o)))
         a = emulator.Analyzer(c)
-        if cur["ps"] is not None:
-            a.post_selection = fresh_ps(cur["ps"])
+        a.post_selection = _explicit_ps(own_ps(o))
         return a
+
+    def own_ps(o):
+        """a new PostSelection object with the rules that the holder's post-selection is recorded to hold now"""
+        cur = o["cur"]
+        if cur["ps"] is not None:
+            return fresh_ps(cur["ps"])
+        if not cur.get("own_rules"):
+            return None
+        ps = lw.PostSelection()
+        for x in cur["own_rules"]:
+            ps.add(tuple(x[0]), tuple(x[1]))
+        return ps
+
+    def intended(o) -> dict:
+        """the settings of a holder according to the harness's record of the history"""
+        cur = o["cur"]
+        if o["kind"] == "sampler":
+            return _intended("sampler", src=eff(o, "s"), thr=0, det=eff(o, "d"), backend=eff(o, "b"), inp=cur["input"])
+        rules = cur.get("own_rules", []) if cur["ps"] is None else psrules.get(json.dumps(cur["ps"]), [cur["ps"]])
+        return _intended(o["kind"], pnr=cur.get("pnr"), rules=rules, inp=cur.get("input"))
+
+    def unassigned_change(k, st) -> list[str]:
+        """cross-check after every step: what EVERY holder reports through its public attributes is what the harness
+        recorded for it"""
+        for name, o in objs.items():
+            bad = _reported_vs_intended(o["kind"], o["obj"], intended(o))
+            if bad:
+                return [f"oracle: step #{k} {st}: settings of an object changed without being assigned: {o['kind']} {name} "
+                        f"(created {SH_FORM_TEXT[o['form']]}) reports {bad[0]} = {bad[1]!r} but the last value given to THIS object "
+                        f"(passed / assigned / changed through it or through a component it was given) is {bad[2]!r}"]
+        return []
 
     for k, st in enumerate(steps):
         op = st[0]
@@ -723,21 +995,40 @@ def _run_shared(ctx: Ctx, steps: list, tk: dict) -> list[str]:
                 _, name, kind, cname, base, cfg = st
                 c = fam[cname]
                 cur = {"circuit": cname, "input": pad(base, c)}
+                # cfg["form"]: "kw" (default) a component that is not given is passed as None by keyword; "omit": its
+                # argument is left out; "pos": all arguments by position.  A component "own" / backend "own" = not given.
+                form = cfg.get("form", "kw")
                 if kind == "sampler":
-                    cur.update({"b": cfg["b"], "s": cfg["s"], "d": cfg["d"], "own_s": [1, 1, 1], "own_d": [1, 0, True]})
-                    b = cfg["b"][4:] if cfg["b"].startswith("str:") else comp[cfg["b"]]
-                    obj = emulator.Sampler(c, lw.State(cur["input"]), source=comp.get(cfg["s"]), detector=comp.get(cfg["d"]),
-                                           backend=b)
+                    cur.update({"b": "str:permanent" if cfg["b"] == "own" else cfg["b"], "s": cfg["s"], "d": cfg["d"],
+                                "own_s": [1, 1, 1], "own_d": [1, 0, True]})
+                    b = None if cfg["b"] == "own" else cfg["b"][4:] if cfg["b"].startswith("str:") else comp[cfg["b"]]
+                    given = {"source": comp.get(cfg["s"]), "detector": comp.get(cfg["d"]), "backend": b}
+                    if form == "pos":
+                        obj = emulator.Sampler(c, lw.State(cur["input"]), *given.values())
+                    else:
+                        obj = emulator.Sampler(c, lw.State(cur["input"]),
+                                               **{a: x for a, x in given.items() if form != "omit" or x is not None})
                 elif kind == "quick":
-                    cur.update({"pnr": cfg["pnr"], "ps": cfg["ps"]})
-                    obj = emulator.QuickSampler(c, lw.State(cur["input"]), photon_counting=cfg["pnr"],
-                                                post_select=None if cfg["ps"] is None else ps_for(cfg["ps"]))
+                    cur.update({"pnr": cfg["pnr"], "ps": cfg["ps"], "own_rules": []})
+                    ps = None if cfg["ps"] is None else ps_for(cfg["ps"])
+                    if form == "pos":
+                        obj = emulator.QuickSampler(c, lw.State(cur["input"]), cfg["pnr"], ps)
+                    elif form == "omit":
+                        kw = ({} if cfg["pnr"] else {"photon_counting": False}) | ({} if ps is None else {"post_select": ps})
+                        obj = emulator.QuickSampler(c, lw.State(cur["input"]), **kw)
+                    else:
+                        obj = emulator.QuickSampler(c, lw.State(cur["input"]), photon_counting=cfg["pnr"], post_select=ps)
                 else:
-                    cur.update({"ps": cfg["ps"]})
+                    cur.update({"ps": cfg["ps"], "own_rules": []})
                     obj = emulator.Analyzer(c)
                     if cfg["ps"] is not None:
                         obj.post_selection = ps_for(cfg["ps"])
-                objs[name] = {"kind": kind, "obj": obj, "cur": cur}
+                    elif form != "omit":
+                        obj.post_selection = None
+                objs[name] = {"kind": kind, "obj": obj, "cur": cur, "form": form}
+                bad = unassigned_change(k, st)
+                if bad:
+                    return bad
                 continue
             if op == "param":
                 p.set(st[1])
@@ -750,6 +1041,9 @@ def _run_shared(ctx: Ctx, steps: list, tk: dict) -> list[str]:
                         ctx.count("shared:mutate_ps_refused")
                     else:
                         psrules[json.dumps(st[1])].append(st[2])
+                    bad = unassigned_change(k, st)
+                    if bad:
+                        return bad
                 continue
             if op == "mutate_circuit":
                 if st[2] != "gate" or gates.get(st[1], 0) < 2:
@@ -765,6 +1059,9 @@ def _run_shared(ctx: Ctx, steps: list, tk: dict) -> list[str]:
                 else:
                     _set_detector(comp[ref], v)
                 vals[ref] = v
+                bad = unassigned_change(k, st)
+                if bad:
+                    return bad
                 continue
             o = objs.get(st[1])
             if o is None:
@@ -780,8 +1077,16 @@ def _run_shared(ctx: Ctx, steps: list, tk: dict) -> list[str]:
                     obj.input_state = lw.State(new)
                     cur["input"] = new
                 elif attr == "backend" and kind == "sampler":
-                    obj.backend = v[4:] if v.startswith("str:") else comp[v]
-                    cur["b"] = v
+                    if v is None:  # back to a default Backend of its own
+                        obj.backend = None
+                        cur["b"] = "str:permanent"
+                    else:
+                        obj.backend = v[4:] if v.startswith("str:") else comp[v]
+                        cur["b"] = v
+                elif attr in ("source", "detector") and kind == "sampler" and v is None:
+                    # back to a default component of its own: pristine whatever was done to other objects' defaults
+                    setattr(obj, attr, None)
+                    cur[attr[0]], cur["own_" + attr[0]] = "own", ([1, 1, 1] if attr == "source" else [1, 0, True])
                 elif attr == "source" and kind == "sampler":
                     if isinstance(v, list):  # a new private Source with these values
                         obj.source = _mk_source(v)
@@ -798,18 +1103,29 @@ def _run_shared(ctx: Ctx, steps: list, tk: dict) -> list[str]:
                         cur["d"] = v
                 elif attr == "post_select" and kind == "quick":
                     obj.post_select = None if v is None else ps_for(v)
-                    cur["ps"] = v
+                    cur["ps"], cur["own_rules"] = v, []
                 elif attr == "post_select" and kind == "analyzer":
                     obj.post_selection = None if v is None else ps_for(v)
-                    cur["ps"] = v
+                    cur["ps"], cur["own_rules"] = v, []
                 elif attr == "pnr" and kind == "quick":
                     obj.photon_counting = v
                     cur["pnr"] = v
+                bad = unassigned_change(k, st)
+                if bad:
+                    return bad
                 continue
             if op == "mutate_own":
+                what, v = st[2], st[3]
+                if what == "ps_add":
+                    # a rule added in place to the holder's OWN default post-selection (if that can take rules at all)
+                    if kind != "sampler" and cur["ps"] is None and v not in cur["own_rules"] and _tune_in_place(ctx, obj, kind, what, v):
+                        cur["own_rules"] = [*cur["own_rules"], v]
+                        bad = unassigned_change(k, st)
+                        if bad:
+                            return bad
+                    continue
                 if kind != "sampler":
                     continue
-                what, v = st[2], st[3]
                 if what == "backend":
                     obj.backend.backend = v
                     if cur["b"].startswith("str:"):
@@ -828,11 +1144,17 @@ def _run_shared(ctx: Ctx, steps: list, tk: dict) -> list[str]:
                         cur["own_d"] = v
                     else:
                         vals[cur["d"]] = v
+                bad = unassigned_change(k, st)
+                if bad:
+                    return bad
                 continue
             if op != "obs":
                 continue
+            note = unassigned_change(k, st)
             c = fam[cur["circuit"]]
             what = st[2]
+            if note and (what == "analyze") != (kind == "analyzer") or note and kind != "analyzer" and len(cur["input"]) != c.input_modes:
+                return note  # (the observation does not apply to this holder: the cross-check alone)
             if kind == "analyzer":
                 if what != "analyze":
                     continue
@@ -892,7 +1214,10 @@ def _run_shared(ctx: Ctx, steps: list, tk: dict) -> list[str]:
             if not same_obs(a, fo):
                 shown = {x: (eff(o, x) if kind == "sampler" else None) for x in ("b", "s", "d")} if kind == "sampler" else {}
                 return [f"oracle: step #{k} {st}: long-lived {kind} {st[1]} gives {str(a)[:140]} but a fresh object with the same "
-                        f"settings ({ {**{x: y for x, y in cur.items() if not x.startswith('own_')}, **shown} }) gives {str(fo)[:140]}"]
+                        f"settings ({ {**{x: y for x, y in cur.items() if not x.startswith('own_')}, **shown} }) gives {str(fo)[:140]}"
+                        + ("; " + note[0].split(": ", 2)[2] if note else "")]
+            if note:
+                return note
         except Exception as e:  # noqa: BLE001
             return [f"oracle: step #{k} {st} raised {exc_class(e)}: {str(e)[:80]}"]
     return []
@@ -925,6 +1250,46 @@ def _shared_corpus() -> list:
                 rd("S1"), rd("S2"), ["mutate_own", "S1", "source", [0.8, 1, 1]], ["mutate_own", "S1", "detector", [0.9, 0, False]],
                 ["mutate_own", "S1", "backend", "slos"], rd("S2"), ["obs", "S2", "sample_N_inputs", 20, 3, None], rd("S1"),
                 ["obs", "S1", "sample_N_inputs", 20, 3, None]])
+    # DEFAULT COMPONENTS ARE PER OBJECT: holders created without source / detector / backend (argument left out, None, None
+    # by position), before and after ONE of them tunes its own default in place; a holder put back on a default (= None)
+    dflt = lambda form: {"b": "own", "s": "own", "d": "own", "form": form}  # noqa: E731
+    tunes = [("source", [0.8, 1, 1]), ("source", [1, 1, 0.7]), ("source", [1, 0.9, 1]), ("detector", [0.9, 0, False]),
+             ("detector", [1, 0.05, True]), ("backend", "slos")]
+    for i, (what, v) in enumerate(tunes):
+        smp_obs = ["sample_N_inputs", 20, 3, None] if what == "detector" else ["sample_N_outputs", 20, 3, None]
+        for j, form in enumerate(("kw", *FORMS)):
+            # bystander created before, observed before and after; a third created afterwards.  All in the SAME call form
+            # (a default that is shared per call form shows only between such objects), or (j == 0) in three different ones
+            f1, f2, f3 = (FORMS[i % 3], FORMS[(i + 1) % 3], FORMS[(i + 2) % 3]) if j == 0 else (form, form, form)
+            out.append([["new", "S1", "sampler", "plain", [1, 1, 0], dflt(f1)], ["new", "S2", "sampler", "lossy", [1, 1, 0], dflt(f2)], rd("S2"),
+                        ["mutate_own", "S1", what, v], rd("S2"), ["obs", "S2", *smp_obs], ["new", "S3", "sampler", "plain", [1, 1, 0], dflt(f3)],
+                        rd("S3"), ["obs", "S3", *smp_obs], rd("S1"), ["obs", "S1", *smp_obs]])
+        # the first object ever made is tuned before anything was read; later objects of every call form are pristine
+        f2 = FORMS[(i + 1) % 3]
+        out.append([["new", "S1", "sampler", "plain", [1, 1, 0], dflt(f2)], ["mutate_own", "S1", what, v],
+                    *[x for j, f in enumerate(("kw", *FORMS)) for x in (["new", f"T{j}", "sampler", "plain", [1, 1, 0], dflt(f)], rd(f"T{j}"))],
+                    ["obs", "T1", *smp_obs], ["obs", "T2", *smp_obs], ["obs", "T3", *smp_obs], rd("S1")])
+        # a holder of an explicit / shared component is put back on a default of its own after another default was tuned
+        out.append([["new", "S1", "sampler", "plain", [1, 1, 0], dflt(FORMS[(i + 2) % 3])], ["new", "S2", "sampler", "plain", [1, 1, 0], smp("B1", "SRC1", "D1")],
+                    rd("S2"), ["mutate_own", "S1", what, v], ["set", "S2", what, None], rd("S2"), ["obs", "S2", *smp_obs],
+                    ["set", "S1", what, None], rd("S1"), ["obs", "S1", *smp_obs]])
+    # only one of the three components is a default (the others shared / explicit), in every call form
+    for i, form in enumerate(("kw", *FORMS)):
+        out.append([["new", "S1", "sampler", "plain", [1, 1, 0], {"b": "B0", "s": "own", "d": "D0", "form": form}],
+                    ["new", "S2", "sampler", "plain", [1, 1, 0], {"b": "str:permanent", "s": "own", "d": "own", "form": form}],
+                    ["new", "S3", "sampler", "lossy", [1, 1, 0], {"b": "own", "s": "SRC0", "d": "own", "form": form}], rd("S2"), rd("S3"),
+                    ["mutate_own", "S1", "source", SH_SRC[1 + i]], rd("S2"), rd("S3"), ["mutate_own", "S3", "detector", [0.85, 0, False]],
+                    ["mutate_own", "S3", "backend", "slos"], ["obs", "S2", "sample_N_inputs", 20, 5, None], ["obs", "S1", "sample_N_inputs", 20, 5, None],
+                    rd("S1"), rd("S3")])
+    # QuickSamplers / Analyzers on default post-selection and photon counting, one of them re-configured
+    for i, form in enumerate(FORMS):
+        q = lambda pnr=True, ps=None: {"pnr": pnr, "ps": ps, "form": form}  # noqa: E731, B023
+        out.append([["new", "Q1", "quick", "plain", [1, 1, 0], q()], ["new", "Q2", "quick", "plain", [1, 1, 0], q()], rd("Q2"),
+                    ["mutate_own", "Q1", "ps_add", [[0], [1]]], ["set", "Q1", "pnr", False], rd("Q2"), ["obs", "Q2", "sample", 3],
+                    ["new", "Q3", "quick", "lossy", [1, 1, 0], q()], rd("Q3"), ["new", "A1", "analyzer", "plain", [1, 1, 0], {"ps": None, "form": form}],
+                    ["obs", "A1", "analyze", [[1, 1, 0]], False], ["mutate_own", "A1", "ps_add", [[1], [0, 1]]],
+                    ["new", "A2", "analyzer", "plain", [1, 1, 0], {"ps": None, "form": form}], ["obs", "A2", "analyze", [[1, 1, 0]], True],
+                    ["set", "Q1", "post_select", [[0], [1]]], ["set", "Q1", "post_select", None], rd("Q1"), rd("Q2")])
     # a Detector shared by two Samplers changed in place between sampling calls
     out.append([["new", "S1", "sampler", "herald_out0", [1, 1, 0], smp("B0", "own", "D0")],
                 ["new", "S2", "sampler", "herald_out2", [1, 1, 0], smp("B1", "own", "D0")],
@@ -987,11 +1352,15 @@ def gen_shared(ctx: Ctx, rng) -> list:
         n_of[kind] += 1
         name = {"sampler": "S", "quick": "Q", "analyzer": "A"}[kind] + str(n_of[kind])
         if kind == "sampler":
-            cfg = {"b": rng.choice(SH_BREFS), "s": rng.choice(["SRC0", "SRC0", "SRC1", "own"]), "d": rng.choice(["D0", "D0", "D1", "own"])}
+            cfg = {"b": rng.choice([*SH_BREFS, "own"]), "s": rng.choice(["SRC0", "SRC0", "SRC1", "own", "own"]),
+                   "d": rng.choice(["D0", "D0", "D1", "own", "own"])}
         elif kind == "quick":
             cfg = {"pnr": rng.random() < 0.6, "ps": rng.choice(SH_RULES)}
         else:
             cfg = {"ps": rng.choice(SH_RULES)}
+        if rng.random() < 0.5:
+            cfg["form"] = rng.choice(FORMS)
+        ctx.count(f"shared:new:form:{cfg.get('form', 'kw')}")
         steps.append(["new", name, kind, rng.choice(group), base0 if rng.random() < 0.7 else rng.choice(SH_INPUTS), cfg])
         objs[name] = kind
         ctx.count(f"shared:new:{kind}")
@@ -1037,10 +1406,12 @@ def gen_shared(ctx: Ctx, rng) -> list:
             what = rng.choice(["backend", "source", "source", "detector"])
             v = rng.choice(["permanent", "slos"]) if what == "backend" else rng.choice(SH_SRC) if what == "source" else rng.choice(SH_DET)
             steps.append(["mutate_own", name, what, v])
+        elif r < 0.6:
+            steps.append(["mutate_own", name, "ps_add", rng.choice(SH_RULES[1:])])
         elif r < 0.72 and kind == "sampler":
             attr = rng.choice(["backend", "source", "detector"])
-            v = (rng.choice(SH_BREFS) if attr == "backend" else
-                 rng.choice(["SRC0", "SRC1", rng.choice(SH_SRC)]) if attr == "source" else rng.choice(["D0", "D1", rng.choice(SH_DET)]))
+            v = (rng.choice([*SH_BREFS, None]) if attr == "backend" else
+                 rng.choice(["SRC0", "SRC1", rng.choice(SH_SRC), None]) if attr == "source" else rng.choice(["D0", "D1", rng.choice(SH_DET), None]))
             steps.append(["set", name, attr, v])
         elif r < 0.72 and kind == "quick":
             steps.append(["set", name, rng.choice(["post_select", "pnr"]), None])
@@ -1056,6 +1427,76 @@ def gen_shared(ctx: Ctx, rng) -> list:
         # after every step: look at one or two holders, not necessarily the one that was touched
         for n in rng.sample(list(objs), min(len(objs), rng.randint(1, 2))):
             obs(n)
+    return steps
+
+
+def gen_defaults(ctx: Ctx, rng) -> list:
+    """a world of holders that are ALL created on default components (every call form), in which some holders tune their
+    own defaults in place, are put back on a default (= None) or get an explicit component; holders are created before and
+    after every tuning and every holder is observed again and again"""
+    steps: list = []
+    kinds: dict = {}
+    mix = rng.choice([["sampler"], ["sampler"], ["sampler", "sampler", "quick", "analyzer"], ["quick", "analyzer"]])
+    group = rng.choice([["plain"], ["plain", "lossy"], ["plain", "herald_out0", "idleherald1"], ["lossy1", "swap", "plain"]])
+    base = rng.choice(SH_INPUTS[:3])
+    main_form = rng.choice(["kw", *FORMS])  # (most holders of a world are created in the same way)
+
+    def new() -> str:
+        kind = rng.choice(mix)
+        name = {"sampler": "S", "quick": "Q", "analyzer": "A"}[kind] + str(len(kinds) + 1)
+        form = main_form if rng.random() < 0.7 else rng.choice(["kw", *FORMS])
+        cfg = {"b": "own", "s": "own", "d": "own"} if kind == "sampler" else {"pnr": True, "ps": None} if kind == "quick" else {"ps": None}
+        steps.append(["new", name, kind, rng.choice(group), base, {**cfg, "form": form}])
+        kinds[name] = kind
+        ctx.count(f"defaults:new:{kind}:{form}" + (":after_a_tuning" if any(st[0] == "mutate_own" for st in steps) else ""))
+        return name
+
+    def obs(name: str) -> None:
+        kind = kinds[name]
+        sd = rng.randrange(1000)
+        if kind == "analyzer":
+            steps.append(["obs", name, "analyze", [base], rng.random() < 0.4])
+        elif kind == "quick":
+            steps.append(rng.choice([["obs", name, "read"], ["obs", name, "sample", sd], ["obs", name, "sample_N_outputs", 20, sd, None]]))
+        else:
+            steps.append(rng.choice([["obs", name, "read"], ["obs", name, "read"], ["obs", name, "sample", sd],
+                                     ["obs", name, "sample_N_outputs", 20, sd, None], ["obs", name, "sample_N_inputs", 20, sd, None]]))
+
+    def tune(name: str) -> None:
+        kind = kinds[name]
+        if kind != "sampler":
+            steps.append(rng.choice([["mutate_own", name, "ps_add", rng.choice(SH_RULES[1:])], ["set", name, "pnr", rng.random() < 0.5],
+                                     ["set", name, "post_select", rng.choice(SH_RULES)]]))
+            return
+        what = rng.choice(["source", "source", "source", "detector", "detector", "backend"])
+        v = rng.choice(SH_SRC[1:]) if what == "source" else rng.choice(SH_DET[1:]) if what == "detector" else rng.choice(["slos", "permanent"])
+        steps.append(["mutate_own", name, what, v])
+        ctx.count(f"defaults:tuned_in_place:{what}")
+
+    first = new()
+    if rng.random() < 0.7:
+        new()
+    for n in list(kinds):
+        if rng.random() < 0.6:
+            obs(n)
+    tune(first)
+    for _ in range(rng.randint(3, 7)):
+        r = rng.random()
+        name = rng.choice(list(kinds))
+        if r < 0.3 and len(kinds) < 5:
+            obs(new())
+        elif r < 0.55:
+            tune(name)
+        elif r < 0.7 and kinds[name] == "sampler":
+            steps.append(["set", name, rng.choice(["source", "detector", "backend"]), None])
+            ctx.count("defaults:component_set_to_None")
+        elif r < 0.78 and kinds[name] == "sampler":
+            steps.append(rng.choice([["set", name, "source", rng.choice(SH_SRC)], ["set", name, "detector", rng.choice(SH_DET)],
+                                     ["set", name, "backend", "str:slos"]]))
+        for n in rng.sample(list(kinds), min(len(kinds), rng.randint(1, 3))):
+            obs(n)
+    for n in kinds:
+        obs(n)
     return steps
 
 
@@ -1088,7 +1529,11 @@ def _report_corr(ctx: Ctx, obj: str, steps: list, probs: list[str], rerun, max_t
 
 def shared_histories(ctx: Ctx, rng) -> None:
     ctx.count("shared:oracle+corr")  # (QuickSamplers on the world model, every Sampler on a cache model of its own)
-    todo = [("corpus", h) for h in SHARED_CORPUS] + [("random", gen_shared(ctx, rng)) for _ in range(ctx.n(70, 1500))]
+    todo = [("corpus", h) for h in SHARED_CORPUS]
+    for i in range(ctx.n(70, 1500)):
+        todo.append(("random", gen_shared(ctx, rng)))
+        if i % 3 == 0:
+            todo.append(("defaults", gen_defaults(ctx, rng)))
     reported = 0
     for tag, steps in todo:
         if ctx.out_of_time() or reported >= 3:
@@ -1165,7 +1610,7 @@ def directed_fields(ctx: Ctx) -> None:
     through different objects (oracle and correspondence)"""
     reported = 0
     for kind in ("sampler", "quick"):
-        for label, steps in field_corpus(kind):
+        for label, steps in field_corpus(kind) + defaults_corpus(kind):
             probs = run_history(ctx, kind, steps, count=True)
             ctx.count(f"corr:directed:{kind}:{label}")
             ctx.case(json.dumps([kind, steps]), True)
@@ -1188,7 +1633,10 @@ def run(ctx: Ctx) -> None:
                 "QuickSampler, each observation compared with a fresh object AND (whether it recomputed) with the cache "
                 "model; histories in which several Samplers / "
                 "QuickSamplers / Analyzers share Backend / Source / Detector / PostSelection / circuit objects and are "
-                "reconfigured and observed in interleaved order; non-trivial = a read/sample follows a "
+                "reconfigured and observed in interleaved order, incl. holders created on default components (argument "
+                "left out / None / by position / set back to None) of which one is tuned in place while others exist "
+                "before and are created after, every holder's reported settings cross-checked against the harness's own "
+                "record of what it was given; non-trivial = a read/sample follows a "
                 "reconfiguration that follows an earlier read, resp. >= 2 observations on >= 2 holders; distinct = "
                 "distinct history")
     SEAMS.install()
